@@ -20,7 +20,7 @@ func init() {
 	register(&Check{
 		ID: "C13", Level: "exploration", Primary: "sessions", EvalCount: "sessions_checked", RaceIsViolation: false,
 		Rule: "one session = a standards-conforming StartTLS upgrade (go-ldap's StartTLS, and a raw client that waits for the response before its ClientHello) through a wiretap proxy recording both directions, " +
-			"against a StartTLS handler (registered on the exact-name route, or - every third timing - performed by the default route) with delays in {0,1,5,50ms, and 0.7-3s} before the reply, between the reply and Request.StartTLS, and after it; 1..64 sessions upgrade in parallel, some after an answered bind/search on the still-plain connection whose handler lingers 300ms, some next to (and after) other sessions that take the StartTLS reply and then send garbage, half a ClientHello or nothing - two (every fourth timing: twenty) of them stay like that, open, for as long as the conforming sessions run; some sessions end with an operation gldap does not serve (Compare) sent inside the tunnel; after the upgrade a mix of requests " +
+			"against a StartTLS handler (registered on the exact-name route, or - every third timing - performed by the default route) with delays in {0,1,5,50ms, and 0.7-3s} before the reply, between the reply and Request.StartTLS, and after it; 1..64 sessions upgrade in parallel, some after an answered bind/search on the still-plain connection whose handler lingers 300ms, some next to (and after) other sessions that take the StartTLS reply and then send garbage, half a ClientHello or nothing - two (every fourth timing: twenty) of them stay like that, open, for as long as the conforming sessions run; some sessions end with an operation gldap does not serve (Compare) sent inside the tunnel; raw-client sessions ask for a streamed answer (one entry, the rest only after the client has seen it); every fourth timing builds the StartTLS reply with the general constructor; after the upgrade a mix of requests " +
 			"(go-ldap bind/search/modify, and pipelined concurrent raw requests over the tunnel) is checked with the C01 comparison; one session keeps using the tunnel after several seconds of think time; part of the sessions stay open and idle until the server is stopped, so that shutdown-time bytes are on the wiretap too. Wiretap oracle: plaintext LDAP frames up to and including the StartTLS request " +
 			"(client->server) / the ExtendedResponse with its message ID (server->client), after which every byte in both directions parses as TLS records (content type 20-23, major version 3, length <= 2^14+2048). " +
 			"distinct_nontrivial = distinct (timing triple, client kind, parallelism) combinations whose upgrade completed",
@@ -28,7 +28,7 @@ func init() {
 		Phases: func(tier string, seed int64) []Phase {
 			return []Phase{{Name: "upgrades", Race: true, Run: c13Run}}
 		},
-		MinObserved: []string{"sessions_checked", "tls_records_classified", "post_upgrade_requests_compared", "sessions_open_and_idle_at_stop", "upgrades_served_by_the_default_route", "requests_answered_after_think_time", "handshakes_failed_or_abandoned_by_other_sessions", "handshakes_left_pending_while_conforming_sessions_upgrade", "sessions_with_an_answered_request_before_the_upgrade", "rendezvous_inside_the_tunnel_satisfied", "high_volume_sessions_after_upgrade", "plaintext_requests_sent_in_the_same_write_as_starttls", "sessions_whose_first_record_is_not_labelled_3_1", "tunnel_requests_checked_against_the_upgrade_handlers_return", "last_requests_sent_together_with_close_notify", "upgrades_after_a_refused_starttls_request", "upgrades_of_connections_opened_seconds_earlier", "sessions_ended_by_an_unsupported_operation_inside_the_tunnel"},
+		MinObserved: []string{"sessions_checked", "tls_records_classified", "post_upgrade_requests_compared", "sessions_open_and_idle_at_stop", "upgrades_served_by_the_default_route", "requests_answered_after_think_time", "handshakes_failed_or_abandoned_by_other_sessions", "handshakes_left_pending_while_conforming_sessions_upgrade", "sessions_with_an_answered_request_before_the_upgrade", "rendezvous_inside_the_tunnel_satisfied", "high_volume_sessions_after_upgrade", "plaintext_requests_sent_in_the_same_write_as_starttls", "sessions_whose_first_record_is_not_labelled_3_1", "tunnel_requests_checked_against_the_upgrade_handlers_return", "last_requests_sent_together_with_close_notify", "upgrades_after_a_refused_starttls_request", "upgrades_of_connections_opened_seconds_earlier", "sessions_ended_by_an_unsupported_operation_inside_the_tunnel", "starttls_replies_built_with_the_general_constructor", "streamed_entries_received_while_their_handler_was_waiting"},
 	})
 }
 
@@ -256,8 +256,16 @@ func c13Timed(c *Ctx, pki *PKI, tm c13Timing, par int, ti int) {
 			w.Write(r.NewExtendedResponse(gldap.WithResponseCode(gldap.ResultUnavailable)))
 			return
 		}
-		resp := r.NewExtendedResponse(gldap.WithResponseCode(gldap.ResultSuccess))
-		resp.SetResponseName(gldap.ExtendedOperationStartTLS)
+		var resp gldap.Response
+		if ti%4 == 1 {
+			// the same answer on the wire, built with the general constructor (how a handler builds it is its business)
+			resp = r.NewResponse(gldap.WithApplicationCode(gldap.ApplicationExtendedResponse), gldap.WithResponseCode(gldap.ResultSuccess))
+			c.Count("starttls_replies_built_with_the_general_constructor", 1)
+		} else {
+			er := r.NewExtendedResponse(gldap.WithResponseCode(gldap.ResultSuccess))
+			er.SetResponseName(gldap.ExtendedOperationStartTLS)
+			resp = er
+		}
 		if err := w.Write(resp); err != nil {
 			return
 		}
@@ -307,6 +315,15 @@ func c13Timed(c *Ctx, pki *PKI, tm c13Timing, par int, ti int) {
 					}
 				case strings.HasPrefix(name, "cn=rdv-second-"):
 					close(rdv(strings.TrimPrefix(name, "cn=rdv-second-")))
+				case strings.HasPrefix(name, "cn=stream-"):
+					// a handler that streams: one entry now, the rest when the client - having seen that entry - says so
+					e := r.NewSearchResponseEntry(name)
+					e.AddAttribute("cn", []string{"first"})
+					w.Write(e)
+					select {
+					case <-rdv(strings.TrimPrefix(name, "cn=")):
+					case <-time.After(12 * time.Second):
+					}
 				}
 				h(w, r)
 				if strings.HasPrefix(name, "cn=linger") {
@@ -700,6 +717,31 @@ func c13Timed(c *Ctx, pki *PKI, tm c13Timing, par int, ti int) {
 						c.Violate("requests inside the tunnel are not dispatched concurrently", fmt.Sprintf("two requests pipelined after the upgrade (handler delays %v): the second was not handed to its handler within 10s while the first one's handler was waiting for it", tm), det)
 					} else if dones == 2 {
 						c.Count("rendezvous_inside_the_tunnel_satisfied", 1)
+					}
+				}
+				// a streamed answer: the handler writes one entry and then waits for the client's next request, which the
+				// client sends only once it has that entry in hand (own bound 10s, while the harness's handler is waiting)
+				if !c.MuteViolations && s%2 == 1 {
+					tag := fmt.Sprintf("%d-%d", ti, s)
+					search := func(id int64, base string) []byte {
+						return sber.Message(id, sber.Search{Base: []byte(base), Scope: 2, Filter: sber.PresentFilter("cn"), Attrs: [][]byte{}}.Node(), nil).Encode()
+					}
+					tcl.Send(search(5000003, "cn=stream-"+tag))
+					pm, err := tcl.ReadMsg(10 * time.Second)
+					if err != nil || pm.Op.Tag != sber.AppSearchResultEntry {
+						c.Violate("request inside the tunnel failed", fmt.Sprintf("an entry written by a handler that then waits for the client's next request did not reach the client within 10s (handler delays %v): %v", tm, err), det)
+					} else {
+						c.Count("streamed_entries_received_while_their_handler_was_waiting", 1)
+					}
+					tcl.Send(search(5000004, "cn=rdv-second-stream-"+tag))
+					for dones := 0; dones < 2; {
+						pm, err := tcl.ReadMsg(patience)
+						if err != nil {
+							break
+						}
+						if pm.Op.Tag == sber.AppSearchResultDone {
+							dones++
+						}
 					}
 				}
 				// a session that moves a lot of data after the upgrade (one large request, then many small ones)
